@@ -29,7 +29,7 @@ def main():
         "Lean models of fun2core and core2axcut (the two passes that can duplicate continuations), tied by exact dump equality on every program of the run incl. the scalable families",
         "size = number of S-expression nodes of the stage dump / number of emitted lines",
     ]
-    chk.assumptions = ["focusing, linearization and code generation never duplicate statements (each emits O(context) per statement): checked here on the families, proved bounds exist for fun2core (C19_fun2core_full) and shrinking (C19_shrink_size)"]
+    chk.assumptions = ["the pipeline size theorem C19_pipeline_size bounds the number of x86-64 INSTRUCTIONS of the routine by an explicit polynomial of the source size (Props/C19Rest.lean: uniquify exact, focus <= 4x, linearize <= 2x nodes and linear contexts, code generation <= 485(1+M) per node); 'printCode emits no newline' (instructions = text lines) is not proved: the check measures text lines on the families"]
     chk.rule = (
         "scalable families (gen/gen_family.py: sequenced / nested conditionals and matches, matches on a "
         "4-constructor type, lets over matches, codata with conditionals, mixed) at depth k = 1..K with source "
